@@ -315,6 +315,50 @@ class FuncInfo:
         b = self.real_body()
         return all(isinstance(s, ast.Pass) for s in b)
 
+    def alias_stores(self) -> List[Tuple[int, str, str]]:
+        """Subscript stores through a local name that is a second reference to a mutable object held elsewhere:
+             t = obj.field / t = other / for t in (a.x, a.y):   ...   t[k] = v
+        The value graph gives every variable its own value, so the store is not seen through the other reference
+        (obj.field[k] still has its old value there).  Listed as (line, name, what it refers to); a rule that finds a
+        violation in such a function cannot tell a defect from this loss of precision."""
+        c = getattr(self, "_alias_stores", None)
+        if c is not None:
+            return c
+
+        def ref(n):
+            if isinstance(n, (ast.Name, ast.Attribute)):
+                return not (isinstance(n, ast.Attribute) and not ref(n.value))
+            return isinstance(n, ast.Subscript) and isinstance(n.slice, ast.Constant) and ref(n.value)
+
+        binds: Dict[str, List[Tuple[int, Optional[str]]]] = {}
+        for n in ast.walk(self.node):
+            if isinstance(n, ast.Assign):
+                for t in n.targets:
+                    for t2 in (t.elts if isinstance(t, (ast.Tuple, ast.List)) else [t]):
+                        if isinstance(t2, ast.Name):
+                            is_ref = len(n.targets) == 1 and t2 is t and ref(n.value) and not (
+                                isinstance(n.value, ast.Name) and n.value.id == t2.id)
+                            binds.setdefault(t2.id, []).append((n.lineno, ast.unparse(n.value) if is_ref else None))
+            elif isinstance(n, (ast.For, ast.comprehension)) and isinstance(n.target, ast.Name):
+                it = n.iter
+                is_ref = isinstance(it, (ast.Tuple, ast.List)) and it.elts and all(ref(e) for e in it.elts)
+                binds.setdefault(n.target.id, []).append((getattr(n, "lineno", it.lineno), ast.unparse(it) if is_ref else None))
+            elif isinstance(n, (ast.AugAssign, ast.AnnAssign)) and isinstance(n.target, ast.Name):
+                binds.setdefault(n.target.id, []).append((n.lineno, None))
+        out: List[Tuple[int, str, str]] = []
+        for n in ast.walk(self.node):
+            tg = n.targets if isinstance(n, ast.Assign) else ([n.target] if isinstance(n, ast.AugAssign) else [])
+            for t in tg:
+                for t2 in (t.elts if isinstance(t, (ast.Tuple, ast.List)) else [t]):
+                    if isinstance(t2, ast.Subscript) and isinstance(t2.value, ast.Name) and t2.value.id in binds:
+                        prior = [b for b in binds[t2.value.id] if b[0] <= n.lineno]
+                        if prior:
+                            last = max(prior, key=lambda b: b[0])
+                            if last[1] is not None and last[0] < n.lineno + 1:
+                                out.append((n.lineno, t2.value.id, last[1]))
+        self._alias_stores = out
+        return out
+
 
 @dataclass
 class FieldInfo:
